@@ -53,7 +53,7 @@ PROPS = {
             "rule": "exhaustive assignments of Call-ID, tags and URIs from small alphabets x both orientations x request/response x decorations, plus random long identifiers; oracle: bijection between abstract dialog keys and implementation identifiers; non-trivial = identifier produced"},
     "C11": {"lean": ["C11"], "expected": ["Reader", "Globals"], "streams": [{"name": "frame", "gen": "frame", "args": {"focus": "frame"}}],
             "rule": "generated message sequences under scripted segmentations (exhaustive single/double cuts of short streams, random multi-cuts down to 1-byte segments) through ParseMessage on one bufio.Reader, plus readLine / ParseMessage on real bufio.Readers of capacity 16..4096 against the operational reader model; non-trivial = at least one message extracted; distinct by op line"},
-    "C10": {"lean": ["C10"], "expected": ["Reader", "Globals"], "streams": [{"name": "udpbuf", "gen": "frame", "args": {"focus": "udpbuf"}}, {"name": "pool", "gen": "pool"}, {"name": "udpwire", "gen": "frame", "args": {"focus": "udpwire"}}, {"name": "pipe", "gen": "pipe", "args": {"focus": "responses"}}],
+    "C10": {"lean": ["C10"], "expected": ["Reader", "Globals"], "streams": [{"name": "udpbuf", "gen": "frame", "args": {"focus": "udpbuf"}}, {"name": "pool", "gen": "pool"}, {"name": "udpwire", "gen": "frame", "args": {"focus": "udpwire"}}, {"name": "pipe", "gen": "pipe", "args": {"focus": "responses"}}, {"name": "wire", "gen": "wire", "args": {"focus": "c10"}}],
             "also": ["C02"],
             "rule": "every datagram parsed through the real UDP parse loop in a clean and in a dirty 64 KiB buffer (cut / over- / under-declared datagrams), plus exhaustive and random Alloc/Free histories on the real pool; non-trivial = datagram accepted; distinct by op line"},
     "C08": {"lean": ["C08"], "expected": ["Inventory", "Globals"], "also": ["C10"], "streams": [{"name": "hostile", "gen": "hostile"}, {"name": "udpwire", "gen": "frame", "args": {"focus": "udpwire"}}, {"name": "wire", "gen": "wire", "args": {"focus": "c08"}}],
